@@ -38,7 +38,9 @@ import (
 // C29 — compaction never loses or invents data, even if it crashes.
 //
 // ops:
-//   o.c29.run <ranges ,> <vertical 0|1> <deleteDelay s> <blocks ;> <crash1> <crash2> <cycles: 123 | 13>
+//   o.c29.run <ranges ,> <vertical 0|1> <deleteDelay s> <blocks ;> <crash1> <crash2> <cycles: 123 | 13> [<fault>]
+//       fault = - | t:<k> | d:<n> | b:<bytes>:<n>   selective / transient object store failures, see bucketFault: the call fails,
+//               every other call keeps working (unlike a crash); Compact() returning an error is then expected, losing data is not
 //       block = min:max:seriesmask:tombstones      (series a="1","2","3" selected by the mask bits; samples at
 //                                                   min, min+step, …, max-1 with value 10·t+series — identical in every block)
 //       The REAL compact.BucketCompactor (planner with both filters, Syncer + GarbageCollect, BlocksCleaner, real
@@ -73,6 +75,40 @@ func init() {
 
 var errCrashed = errors.New("verif: bucket crashed")
 var errBudget = errors.New("verif: bucket operation budget exceeded")
+var errInjected = errors.New("verif: injected object store failure")
+
+// bucketFault is a selective / transient failure of the object store (everything else keeps working):
+//   t:<k>          the k-th mutating call (upload or delete) of the cycle fails once
+//   d:<n>          uploads of block data (every object that is not a *.json: chunks/…, index) fail, the first n of them (0 = all, for good)
+//   b:<bytes>:<n>  uploads of objects larger than <bytes> fail, the first n of them (0 = all, for good)
+type bucketFault struct {
+	kind   string
+	k      int
+	n      int
+	bytes  int64
+	failed int
+	fired  bool
+}
+
+func parseFault(s string) (*bucketFault, bool) {
+	if s == "-" {
+		return nil, true
+	}
+	f := strings.Split(s, ":")
+	switch {
+	case f[0] == "t" && len(f) == 2:
+		k, err := strconv.Atoi(f[1])
+		return &bucketFault{kind: "t", k: k}, err == nil && k > 0
+	case f[0] == "d" && len(f) == 2:
+		n, err := strconv.Atoi(f[1])
+		return &bucketFault{kind: "d", n: n}, err == nil && n >= 0
+	case f[0] == "b" && len(f) == 3:
+		by, err1 := strconv.ParseInt(f[1], 10, 64)
+		n, err2 := strconv.Atoi(f[2])
+		return &bucketFault{kind: "b", bytes: by, n: n}, err1 == nil && err2 == nil && n >= 0
+	}
+	return nil, false
+}
 
 // crashBucket wraps the raw bucket: after crashAt mutating operations every call fails.
 type crashBucket struct {
@@ -84,6 +120,42 @@ type crashBucket struct {
 	crashed bool
 	overrun bool
 	onMut   func(kind, name string)
+	fault    *bucketFault // shared across restarts: an outage does not end because the compactor restarted
+	attempts int          // mutating calls attempted (failed ones included)
+	maxTries int
+}
+
+// inject decides whether this mutating call fails because of the selective fault.
+func (b *crashBucket) inject(kind, name string, r io.Reader) bool {
+	b.mu.Lock()
+	defer b.mu.Unlock()
+	b.attempts++
+	if b.maxTries > 0 && b.attempts > b.maxTries {
+		b.overrun = true
+	}
+	f := b.fault
+	if f == nil {
+		return false
+	}
+	hit := false
+	switch f.kind {
+	case "t":
+		if !f.fired && b.mutOps+1 == f.k {
+			f.fired, hit = true, true
+		}
+	case "d":
+		hit = kind == "U" && !strings.HasSuffix(name, ".json") && (f.n == 0 || f.failed < f.n)
+	case "b":
+		if kind == "U" && (f.n == 0 || f.failed < f.n) {
+			if sz, err := objstore.TryToGetSize(r); err == nil && sz > f.bytes {
+				hit = true
+			}
+		}
+	}
+	if hit {
+		f.failed++
+	}
+	return hit
 }
 
 func (b *crashBucket) gate() error {
@@ -118,6 +190,9 @@ func (b *crashBucket) Upload(ctx context.Context, name string, r io.Reader, o ..
 	if err := b.gate(); err != nil {
 		return err
 	}
+	if b.inject("U", name, r) {
+		return errInjected
+	}
 	if err := b.Bucket.Upload(ctx, name, r, o...); err != nil {
 		return err
 	}
@@ -128,6 +203,9 @@ func (b *crashBucket) Upload(ctx context.Context, name string, r io.Reader, o ..
 func (b *crashBucket) Delete(ctx context.Context, name string) error {
 	if err := b.gate(); err != nil {
 		return err
+	}
+	if b.inject("D", name, nil) {
+		return errInjected
 	}
 	if err := b.Bucket.Delete(ctx, name); err != nil {
 		return err
@@ -206,6 +284,7 @@ type c29Env struct {
 	cache    map[ulid.ULID]map[sampleKey]float64
 	c        *hlib.Ctx
 	specSeen map[string]int
+	fault    *bucketFault
 }
 
 func discardLogger() *slog.Logger { return slog.New(slog.NewTextHandler(io.Discard, nil)) }
@@ -430,12 +509,16 @@ func (e *c29Env) newCompactor(bkt objstore.Bucket) (*compact.BucketCompactor, er
 
 // runCompact runs one Compact() of a fresh compactor behind a crash wrapper; returns the wrapper and the error.
 func (e *c29Env) runCompact(crashAt int) (*crashBucket, error) {
-	cb := &crashBucket{Bucket: e.raw, crashAt: crashAt, budget: 80, onMut: e.onMut}
+	cb := &crashBucket{Bucket: e.raw, crashAt: crashAt, budget: 80, onMut: e.onMut, fault: e.fault}
+	timeout := 60 * time.Second
+	if e.fault != nil {
+		cb.maxTries, timeout = 40, 30*time.Second // a compactor that keeps retrying against an outage is cut short
+	}
 	bc, err := e.newCompactor(cb)
 	if err != nil {
 		return cb, err
 	}
-	ctx, cancel := context.WithTimeout(e.ctx, 60*time.Second)
+	ctx, cancel := context.WithTimeout(e.ctx, timeout)
 	defer cancel()
 	return cb, bc.Compact(ctx)
 }
@@ -593,8 +676,15 @@ func execC29(c *hlib.Ctx, tok []string) string {
 		checkEventsCover(c, hlib.Split(tok[2], ","))
 		return "valid"
 	case "o.c29.run":
-		if len(tok) != 8 || (tok[7] != "123" && tok[7] != "13") {
+		if (len(tok) != 8 && len(tok) != 9) || (tok[7] != "123" && tok[7] != "13") {
 			return "bad-op"
+		}
+		var fault *bucketFault
+		if len(tok) == 9 {
+			var okf bool
+			if fault, okf = parseFault(tok[8]); !okf {
+				return "bad-op"
+			}
 		}
 		ranges, ok1 := parseI64s(tok[1])
 		dd, e2 := strconv.ParseInt(tok[3], 10, 64)
@@ -604,12 +694,12 @@ func execC29(c *hlib.Ctx, tok []string) string {
 		if !ok1 || e2 != nil || !ok4 || e5 != nil || e6 != nil || (tok[2] != "0" && tok[2] != "1") || dd < 20 {
 			return "bad-op"
 		}
-		return runC29(c, ranges, tok[2] == "1", dd, blocks, crash1, crash2, tok[7] == "123")
+		return runC29(c, ranges, tok[2] == "1", dd, blocks, crash1, crash2, tok[7] == "123", fault)
 	}
 	return "bad-op"
 }
 
-func runC29(c *hlib.Ctx, ranges []int64, vertical bool, dd int64, blocks []c29Block, crash1, crash2 int, cycle2 bool) string {
+func runC29(c *hlib.Ctx, ranges []int64, vertical bool, dd int64, blocks []c29Block, crash1, crash2 int, cycle2 bool, fault *bucketFault) string {
 	base := ""
 	if st, err := os.Stat("/dev/shm"); err == nil && st.IsDir() {
 		base = "/dev/shm" // memory-backed scratch: TSDB fsyncs every file it writes
@@ -620,7 +710,7 @@ func runC29(c *hlib.Ctx, ranges []int64, vertical bool, dd int64, blocks []c29Bl
 	}
 	defer os.RemoveAll(dir)
 	e := &c29Env{ctx: context.Background(), raw: objstore.NewInMemBucket(), dir: dir, ranges: ranges, vertical: vertical, dd: dd,
-		original: map[sampleKey]float64{}, rank: map[ulid.ULID]int{}, cache: map[ulid.ULID]map[sampleKey]float64{}, c: c}
+		original: map[sampleKey]float64{}, rank: map[ulid.ULID]int{}, cache: map[ulid.ULID]map[sampleKey]float64{}, c: c, fault: fault}
 	var ids []ulid.ULID
 	for _, b := range blocks {
 		id, err := e.createBlock(b)
@@ -644,9 +734,9 @@ func runC29(c *hlib.Ctx, ranges []int64, vertical bool, dd int64, blocks []c29Bl
 		n = cb.mutOps
 		switch {
 		case cb.overrun:
-			c.Violation("no-termination", fmt.Sprintf("%s: Compact() performed more than %d mutating bucket operations", name, cb.budget))
+			c.Violation("no-termination", fmt.Sprintf("%s: Compact() performed more than %d mutating bucket operations (or %d attempts under an injected fault)", name, cb.budget, cb.maxTries))
 			status = append(status, name+"=overrun")
-			return n, false, true
+			return n, false, fault == nil
 		case cb.crashed:
 			status = append(status, name+"=crashed/"+e.checkServed(name+" (crashed)", false))
 			return n, true, false
@@ -656,6 +746,13 @@ func runC29(c *hlib.Ctx, ranges []int64, vertical bool, dd int64, blocks []c29Bl
 				overlapsRefused = true
 				status = append(status, name+"=halt-overlap/"+e.checkServed(name+" (halted)", false))
 				return n, false, true
+			}
+			if fault != nil {
+				// an injected object store failure makes Compact() return a (retriable) error; the compactor's outer loop
+				// would run it again after the wait interval — the scenario goes on
+				c.Count("compact-error-under-fault")
+				status = append(status, name+"=fault-error/"+e.checkServed(name+" (failed under the injected fault)", false))
+				return n, false, false
 			}
 			c.Count("compact-error")
 			status = append(status, name+"=error/"+e.checkServed(name+" (error)", false))
@@ -667,7 +764,10 @@ func runC29(c *hlib.Ctx, ranges []int64, vertical bool, dd int64, blocks []c29Bl
 		status = append(status, name+"=ok/"+e.checkServed(name, finishedIfOK))
 		return n, false, false
 	}
-	n1, crashed, stop := stage("c1", crash1, true)
+	n1, crashed, stop := stage("c1", crash1, fault == nil)
+	if fault != nil && !crashed && !stop {
+		_, _, stop = stage("c1r", 0, false) // the next iteration of the compactor's outer loop, the fault (if not used up) still there
+	}
 	if crashed {
 		_, crashed2, stop2 := stage("c1r", crash2, true)
 		stop = stop2
@@ -679,14 +779,14 @@ func runC29(c *hlib.Ctx, ranges []int64, vertical bool, dd int64, blocks []c29Bl
 		if err := e.shiftMarks(dd/2 + 10); err != nil {
 			return "err:" + err.Error()
 		}
-		_, _, stop = stage("c2", 0, true)
+		_, _, stop = stage("c2", 0, fault == nil)
 	}
 	if !stop {
 		if err := e.shiftMarks(dd + 10); err != nil { // never within seconds of a delay: the real code reads the wall clock
 			return "err:" + err.Error()
 		}
-		_, _, stop = stage("c3", 0, true)
-		if !stop {
+		_, _, stop = stage("c3", 0, fault == nil)
+		if !stop && fault == nil {
 			// every marked block is older than the delete delay now: none may be left
 			left := 0
 			_ = e.raw.Iter(e.ctx, "", func(n string) error {
@@ -767,6 +867,10 @@ type c29Scenario struct {
 	vertical bool
 	blocks   []c29Block
 	name     string
+}
+
+func (s c29Scenario) faultOp(dd int64, fault string) string {
+	return strings.Replace(s.op(dd, 0, 0), " 0 0 123", " 0 0 123 "+fault, 1)
 }
 
 func (s c29Scenario) op(dd int64, c1, c2 int) string {
@@ -872,7 +976,7 @@ func genC29(c *hlib.Ctx) {
 			}
 		}
 	}
-	sets := c.N(6, 25)
+	sets := c.N(6, 16)
 	if c.Tier == "search" {
 		sets = 6
 	}
@@ -903,6 +1007,29 @@ func genC29(c *hlib.Ctx) {
 			}
 			out := c.Do(sc.op(dd, k, 0), true)
 			c.Count("crash-run")
+			_, ev := parseC29Answer(out)
+			if ev != "" && ev != "-" {
+				c.Do(fmt.Sprintf("cp.valid %d %s", dd, ev), true)
+			}
+		}
+		// selective and transient object store failures: block data (chunks, index) cannot be uploaded — for a few attempts
+		// or for good — while small json objects (deletion marks!) still can; objects above a size; one single failing call
+		faults := []string{"d:0"}
+		if c.Tier != "quick" || i%3 == 0 {
+			faults = append(faults, "d:1", "d:2", "b:200:0")
+		}
+		if c.Tier == "quick" {
+			if i%3 == 1 {
+				faults = append(faults, fmt.Sprintf("t:%d", 1+r.Intn(n)), fmt.Sprintf("t:%d", n))
+			}
+		} else {
+			for k := 1; k <= n; k++ {
+				faults = append(faults, fmt.Sprintf("t:%d", k))
+			}
+		}
+		for _, f := range faults {
+			out := c.Do(sc.faultOp(dd, f), true)
+			c.Count("fault-run:" + f[:1])
 			_, ev := parseC29Answer(out)
 			if ev != "" && ev != "-" {
 				c.Do(fmt.Sprintf("cp.valid %d %s", dd, ev), true)
